@@ -1539,3 +1539,32 @@ Corollary c07_ugrid_writable_faithful tmpl ds :
                 c07_is_helper (cv_name v) (fst kv) = true) ->
   c07_writable (uo_ds (c07_encode_ugrid c07_faithful tmpl ds)) = true.
 Proof. apply c07_ugrid_writable_stripped. reflexivity. Qed.
+
+(* ------------------------------------------------------------------------------------- *)
+(* node indices not referenced by any face (orphan node 0, orphan nodes in the middle / at the
+   end): c07_ugrid_roundtrip carries no hypothesis about which indices are in use — the declared
+   start_index 0 is applied, never the smallest index in use.  Concrete instance, both routes: *)
+
+Definition c07_ex_orphan : c07_ds :=
+  [ {| cv_name := c07_s_node_lon; cv_dims := [c07_s_n_node]; cv_attrs := []; cv_data := C07_DFloat [0; 1; 2; 3; 4; 5; 6; 7] |};
+    {| cv_name := c07_s_node_lat; cv_dims := [c07_s_n_node]; cv_attrs := []; cv_data := C07_DFloat [8; 9; 10; 11; 12; 13; 14; 15] |};
+    {| cv_name := c07_s_fnc; cv_dims := [c07_s_n_face; c07_s_n_max_face_nodes]; cv_attrs := c07_ex_fnc_attrs;
+       cv_data := C07_DInt [[1; 2; 3; 4]; [3; 4; 6; FILL]] |} ].      (* nodes 0, 5 and 7 are unused *)
+
+Example c07_ugrid_roundtrip_orphan_nodes :
+  c07_ds_wfb c07_ex_orphan = true /\
+  c07_read_ugrid false (uo_ds (c07_encode_ugrid c07_faithful c07_base_template c07_ex_orphan))
+  = Some {| dc_fnc := [[1; 2; 3; 4]; [3; 4; 6; FILL]]; dc_lon := [0; 1; 2; 3; 4; 5; 6; 7];
+            dc_lat := [8; 9; 10; 11; 12; 13; 14; 15] |} /\
+  c07_read_ugrid true (uo_ds (c07_encode_ugrid c07_faithful c07_base_template c07_ex_orphan))
+  = Some {| dc_fnc := [[1; 2; 3; 4]; [3; 4; 6; FILL]]; dc_lon := [0; 1; 2; 3; 4; 5; 6; 7];
+            dc_lat := [8; 9; 10; 11; 12; 13; 14; 15] |}.
+Proof. repeat split; vm_compute; reflexivity. Qed.
+
+(* were a declared start_index of 0 treated as absent (index base inferred from the smallest index
+   in use), the same grid would come back renumbered: the model's reader keeps the two cases apart *)
+Example c07_standardize_inferred_base_differs :
+  c07_standardize {| cv_name := c07_s_fnc; cv_dims := []; cv_attrs := [(c07_s_fillvalue, C07_ANum FILL)];
+                     cv_data := C07_DInt [[1; 2; 3; 4]; [3; 4; 6; FILL]] |}
+  = Some [[0; 1; 2; 3]; [2; 3; 5; FILL]].
+Proof. vm_compute. reflexivity. Qed.
